@@ -374,7 +374,9 @@ events_network_select(const struct timeval * tv,
 	 */
 	if (tv == NULL)
 		timeout = -1;
-	else if (tv->tv_sec >= INT_MAX / 1000)
+	else if ((tv->tv_sec > INT_MAX / 1000) ||
+	    ((tv->tv_sec == INT_MAX / 1000) &&
+	    (tv->tv_usec > (INT_MAX % 1000) * 1000)))
 		timeout = INT_MAX;
 	else
 		timeout = (int)(tv->tv_sec * 1000 + (tv->tv_usec + 999) / 1000);
